@@ -72,43 +72,6 @@ Section DSim.
     rewrite E. apply help_output_sim; assumption.
   Qed.
 
-  (* a command found by its name in one table is found, up to reordering, in the other *)
-  Lemma find_by_name_sim n n' a0 :
-    nsim n n' -> wfh n -> wfh n' ->
-    match List.find (fun kc => str_eqb (ni_name (n_info (snd kc))) a0) (n_cmds n),
-          List.find (fun kc => str_eqb (ni_name (n_info (snd kc))) a0) (n_cmds n') with
-    | Some (_, c), Some (_, c') => nsim c c' /\ wfh c /\ wfh c'
-    | None, None => True
-    | _, _ => False
-    end.
-  Proof.
-    intros S W W'. pose proof (fun k => nsim_cmd n n' k S) as L.
-    pose proof (wfh_keys _ W) as NDk. pose proof (wfh_keys _ W') as NDk'.
-    pose proof (wfh_names _ W') as NDn'. pose proof (wfh_names _ W) as NDn.
-    set (P := fun kc : str * node => str_eqb (ni_name (n_info (snd kc))) a0).
-    (* uniqueness: two entries of one table whose names are equal are the same entry *)
-    assert (U : forall (c : list (str * node)), NoDup (List.map (fun kc => ni_name (n_info (snd kc))) c) ->
-                forall x y, In x c -> In y c -> ni_name (n_info (snd x)) = ni_name (n_info (snd y)) -> x = y).
-    { induction c as [|z c IH]; intros ND x y Ix Iy E; [contradiction|]. simpl in ND. inversion ND as [|? ? Hn ND']; subst.
-      destruct Ix as [<-|Ix], Iy as [<-|Iy]; auto.
-      - exfalso. apply Hn. rewrite E. apply in_map_iff. exists y. auto.
-      - exfalso. apply Hn. rewrite <- E. apply in_map_iff. exists x. auto. }
-    destruct (List.find P (n_cmds n)) as [[k c]|] eqn:F.
-    - apply find_some in F as [I Pc]. unfold P in Pc. simpl in Pc. apply str_eqb_eq in Pc.
-      pose proof (alookup_NoDup _ _ _ NDk I) as A. specialize (L k). rewrite A in L.
-      destruct (alookup k (n_cmds n')) as [b|] eqn:B; [|contradiction]. apply alookup_In in B.
-      destruct (List.find P (n_cmds n')) as [[k2 c2]|] eqn:F'.
-      + apply find_some in F' as [I2 P2]. unfold P in P2. simpl in P2. apply str_eqb_eq in P2.
-        assert (E : (k2, c2) = (k, b)).
-        { apply (U _ NDn' _ _ I2 B). simpl. rewrite P2, <- (nsim_info _ _ L), Pc. reflexivity. }
-        inversion E; subst. split; [exact L|]. split; [exact (wfh_child n k c W I) | exact (wfh_child n' k b W' B)].
-      + pose proof (find_none _ _ F' _ B) as X. unfold P in X. simpl in X. rewrite <- (nsim_info _ _ L), Pc, str_eqb_refl in X. discriminate.
-    - destruct (List.find P (n_cmds n')) as [[k2 c2]|] eqn:F'; [|exact I].
-      apply find_some in F' as [I2 P2]. unfold P in P2. simpl in P2. apply str_eqb_eq in P2.
-      pose proof (alookup_NoDup _ _ _ NDk' I2) as B. specialize (L k2). rewrite B in L.
-      destruct (alookup k2 (n_cmds n)) as [a|] eqn:A; [|contradiction]. apply alookup_In in A.
-      pose proof (find_none _ _ F _ A) as X. unfold P in X. simpl in X. rewrite (nsim_info _ _ L), P2, str_eqb_refl in X. discriminate.
-  Qed.
 
   Definition allwf (s : pst) : Prop := wfh (cur s) /\ Forall (fun l => wfh (lv_node l)) (up s).
 
@@ -148,11 +111,13 @@ Section DSim.
         by (destruct Bu; reflexivity).
       destruct rem as [|a0 rest].
       + simpl. rewrite <- EU. apply help_output_sim; assumption.
-      + pose proof (find_by_name_sim (lv_node pl) (lv_node pl') a0 Np Wp Wp') as FB.
-        destruct (List.find (fun kc => str_eqb (ni_name (n_info (snd kc))) a0) (n_cmds (lv_node pl))) as [[k c]|],
-                 (List.find (fun kc => str_eqb (ni_name (n_info (snd kc))) a0) (n_cmds (lv_node pl'))) as [[k' c']|];
+      + pose proof (nsim_cmd (lv_node pl) (lv_node pl') a0 Np) as FB.
+        destruct (alookup a0 (n_cmds (lv_node pl))) as [c|] eqn:LA,
+                 (alookup a0 (n_cmds (lv_node pl'))) as [c'|] eqn:LA';
           try contradiction; [|simpl; reflexivity].
-        destruct FB as (Nc & Wcc & Wcc'). simpl. rewrite <- (nsim_info _ _ Nc). apply help_output_sim; assumption.
+        apply alookup_In in LA. apply alookup_In in LA'.
+        simpl. rewrite <- (nsim_info _ _ FB). apply help_output_sim;
+          [exact FB | exact (wfh_child _ _ _ Wp LA) | exact (wfh_child _ _ _ Wp' LA')].
   Qed.
 End DSim.
 
